@@ -62,9 +62,55 @@ def proveOp (inp : Json) : Except String Json := do
   | .err => return Json.mkObj [("status", "err"), ("why", "model prover refused")]
   | .panic => return Json.mkObj [("status", "panic")]
 
+def subProofJson (sp : SubProof Int) : Json :=
+  let eq := sp.eq
+  let nes : List Json := sp.ne.map fun ne =>
+    Json.mkObj [("u", decMapJson ne.u), ("r", decMapJson ne.r), ("mj", Json.str (toString ne.mj)),
+      ("alpha", Json.str (toString ne.alpha)), ("t", decMapJson ne.t), ("predicate", predJson ne.pred)]
+  let eqJ := Json.mkObj [("revealed_attrs", decMapJson eq.revealed), ("a_prime", Json.str (toString eq.aPrime)),
+    ("e", Json.str (toString eq.e)), ("v", Json.str (toString eq.v)), ("m", decMapJson eq.m), ("m2", Json.str (toString eq.m2))]
+  Json.mkObj [("primary_proof", Json.mkObj [("eq_proof", eqJ), ("ge_proofs", Json.arr nes.toArray)]),
+              ("non_revoc_proof", Json.null)]
+
+/-- several credentials, one challenge: the model's `proveMulti` (C01.multi_presentation_complete) -/
+def proveMultiOp (inp : Json) : Except String Json := do
+  let m ← getMode inp
+  let rustBackend := (← getStr inp "backend") == "rust"
+  let common ← decMap (← inp.getObjVal? "common")
+  let nonce ← getDec inp "nonce"
+  let mut creds : List (CredIn Int) := []
+  for cj in (← getArr inp "creds") do
+    let (n, pk) ← parsePubKey (← cj.getObjVal? "pk")
+    let sj ← cj.getObjVal? "sig"
+    let sig : Signature Int := { m2 := ← getDec sj "m_2", a := ← getDec sj "a", e := ← getDec sj "e", v := ← getDec sj "v" }
+    let vals ← decMap (← cj.getObjVal? "values")
+    let schema ← strList cj "schema"
+    let nonSchema ← strList cj "non_schema"
+    let reqJ ← cj.getObjVal? "req"
+    let revealed := sortStrings (← strList reqJ "revealed")
+    let preds ← (← getArr reqJ "predicates").toList.mapM parsePred
+    let tj ← cj.getObjVal? "tape"
+    let mtFresh ← decMap (← tj.getObjVal? "m_tilde")
+    let tp : EqTape := { r := ← getDec tj "r", eTilde := ← getDec tj "e_tilde", vTilde := ← getDec tj "v_tilde",
+                         mTilde := fun k => (lookup k mtFresh).getD 0 }
+    let ptapes ← (← getArr tj "preds").toList.mapM fun pj => do
+      pure ({ r := ← decMap (← pj.getObjVal? "r"), uTilde := ← decMap (← pj.getObjVal? "u_tilde"),
+              rTilde := ← decMap (← pj.getObjVal? "r_tilde"), alphaTilde := ← getDec pj "alpha_tilde" } : NeTape)
+    creds := creds ++ [{ o := znOps n rustBackend, pk := pk, sig := sig, unrevealed := unrevealedOf schema nonSchema revealed,
+                         revealed := revealed, preds := preds.zip ptapes, vals := vals, m2Tilde := ← getDec tj "m2_tilde", tp := tp }]
+  match proveMulti hashList m fourSq common creds (encInt rustBackend nonce) with
+  | .ok prf =>
+    let proof := Json.mkObj [
+      ("proofs", Json.arr (prf.proofs.map subProofJson).toArray),
+      ("aggregated_proof", Json.mkObj [("c_hash", Json.str (toString prf.cHash)), ("c_list", Json.arr (prf.cList.map bytesJson).toArray)])]
+    return Json.mkObj [("status", "ok"), ("proof", proof)]
+  | .err => return Json.mkObj [("status", "err"), ("why", "model prover refused")]
+  | .panic => return Json.mkObj [("status", "panic")]
+
 def dispatchProve (op : String) (inp : Json) : Option (Except String Json) :=
   match op with
   | "prove" => some (proveOp inp)
+  | "prove_multi" => some (proveMultiOp inp)
   | _ => none
 
 end Drv
